@@ -271,6 +271,30 @@ impl MmapLogReg {
     fn len(&self) -> usize {
         self.len
     }
+
+    /// An anonymous, zero-filled log area that is not backed by a file: lets an interpreter
+    /// that cannot map files (Miri) run the real bitmap arithmetic and atomics.
+    #[cfg(feature = "verif-hooks")]
+    pub fn verif_anonymous(len: usize) -> io::Result<Self> {
+        // SAFETY: a fresh private anonymous mapping, no `libc::MAP_FIXED`.
+        let addr = unsafe {
+            libc::mmap(
+                ptr::null_mut(),
+                len as libc::size_t,
+                libc::PROT_READ | libc::PROT_WRITE,
+                libc::MAP_PRIVATE | libc::MAP_ANONYMOUS,
+                -1,
+                0,
+            )
+        };
+        if addr == libc::MAP_FAILED {
+            return Err(io::Error::last_os_error());
+        }
+        Ok(Self {
+            addr: addr as *const AtomicU8,
+            len,
+        })
+    }
 }
 
 impl Index<usize> for MmapLogReg {
